@@ -35,22 +35,36 @@ def groupOk : List Sel → Bool
   | [] => true
   | s :: rest => rest.all fun x => x.name == s.name && x.sub.isSome == s.sub.isSome
 
-/-- conflict detection on the merged form, at every level (the repaired `detectConflicts`):
-directives are not consulted, every fragment is visited -/
-def noConflict : Nat → SelSet → Bool
-  | 0, _ => false
-  | f+1, ss =>
-      let groups := groupByAlias (visitAll f ss).reverse
-      groups.all fun (a, g) =>
-        groupOk g.reverse &&
-        match mergeGroup a g.reverse with
-        | some ⟨_, _, some sub⟩ => noConflict f sub
-        | _ => true
-where
-  /-- like `visit`, ignoring directives -/
-  visitAll : Nat → SelSet → List Sel
-    | 0, _ => []
-    | f+1, ss => ss.sels ++ ss.frags.flatMap (fun fr => visitAll f fr.set)
+/-- like `visit`, ignoring directives and type conditions -/
+def visitAll : Nat → SelSet → List Sel
+  | 0, _ => []
+  | f+1, ss => ss.sels ++ ss.frags.flatMap (fun fr => visitAll f fr.set)
+
+/-- conflict detection on the merged form, at every level, against the type
+(`detectMergeConflicts`): under an object every fragment is merged whatever its type condition,
+under a union only the fragments on the same member; directives are not consulted -/
+def noConflict (σ : Schema) : Nat → Ty → Option SelSet → Bool
+  | 0, _, _ => false
+  | _+1, .scalar, _ => true
+  | f+1, .nonNull t, ss => noConflict σ f t ss
+  | f+1, .list t, ss => noConflict σ f t ss
+  | f+1, .object n, ss =>
+      match ss, lookup n σ.objects with
+      | some ss, some od =>
+          (groupByAlias (visitAll f ss).reverse).all fun (a, g) =>
+            groupOk g.reverse &&
+            match mergeGroup a g.reverse with
+            | some ⟨_, name, some sub⟩ =>
+                (match findField name od.fields with
+                 | some fd => noConflict σ f fd.ty (some sub)
+                 | none => true)
+            | _ => true
+      | _, _ => true
+  | f+1, .union n, ss =>
+      match ss with
+      | some ss => ((lookup n σ.unions).getD []).all fun m =>
+          noConflict σ f (.object m) (some (.mk [] (ss.frags.filter fun fr => fr.on == m)))
+      | none => true
 
 /-- validity of the merged (flattened) form against a type: what evaluation actually relies on -/
 def validF (σ : Schema) : Nat → Ty → Option SelSet → Bool
